@@ -73,7 +73,7 @@ def generate(rng, tier):
 class World:
     def __init__(self, sc, ctx):
         self.ctx = ctx
-        self.model = Model()
+        self.model = Model(seed=20260927)
         self.ref = RefSched()
         self.log = []          # events of the current timestep
         self.objs = {}
